@@ -14,7 +14,8 @@ From Coq Require Import List String.
 Import ListNotations.
 Open Scope string_scope.
 
-(* (package, function, ranged expression, class) *)
+(* (package, function, ranged expression as reviewed, class): a map iteration of the inventory is matched
+   by package and function - the iteration may be rewritten inside its function, not moved out of it *)
 Definition map_range_classes : list (string * string * string * string) := [
   ("catalog", "NewExchangeJSightSchema", "coreRules", "insert-only");
   ("catalog", "ObjectBuilder.AddProperty", "types", "insert-only");
